@@ -48,7 +48,16 @@ def mutate_direct(tape, base):
 
 
 def mutate_relay(tape, sub_base):
-    k = tape.choose(7, "mr")
+    k = tape.choose(8, "mr")
+    if k == 7:
+        # a relay reachable in several ways: valid sub-hints of both types,
+        # with equal or different priorities
+        subs = [dict(sub_base, priority=tape.pick((0.0, 1, 2.5), "rp1")),
+                dict(sub_base, type="tor-tcp-v1",
+                     priority=tape.pick((0.0, 1, 2.5), "rp2"))]
+        if tape.choose(2, "rswap"):
+            subs.reverse()
+        return {"type": "relay-v1", "hints": subs}
     if k == 0:
         return {"type": "relay-v1"}                       # no "hints"
     if k == 1:
